@@ -14,8 +14,8 @@ import (
 
 func init() {
 	fw.Register(&fw.Property{
-		ID:    "C13",
-		Level: "exploration",
+		ID:     "C13",
+		Level:  "exploration",
 		Jitter: true,
 		Rule: "snps, variants and sam variants inputs with 1-30 sequences engineered so that mutations recur in k of n sequences; thresholds {0, 1, an occurring frequency passed as the same float64, just above / just below it}; --append-snps on/off; reference record inside the MSA (must not count) or taken from the annotation; two observed runs per case (per-sequence and --aggregate) related by counting; " +
 			"distinct non-trivial = distinct (command, n, threshold kind, append-snps, number of distinct mutations class, a mutation at the threshold boundary present)",
@@ -342,6 +342,29 @@ func recurSam(r *fw.Rng, ac annoCase) annoCase {
 	hdr := sb.String()
 	sb.Reset()
 	sb.WriteString(hdr)
+	// records that never contribute (unmapped, secondary), of any name, anywhere in the file:
+	// they are not sequences and must not change any count
+	nx := 0
+	extraRecs := func(near string) {
+		for r.Chance(0.12) {
+			nx++
+			name := near
+			if r.Chance(0.6) {
+				name = fmt.Sprintf("noise_%d", nx)
+			}
+			if r.Chance(0.5) {
+				sb.WriteString(fmt.Sprintf("%s\t4\t*\t0\t0\t*\t*\t0\t0\t%s\t*\n", name, gen.Genome(r, r.Range(1, 20))))
+			} else {
+				p := r.Intn(len(ref))
+				n := r.Range(1, len(ref)-p)
+				if n > 25 {
+					n = 25
+				}
+				sb.WriteString(fmt.Sprintf("%s\t256\t%s\t%d\t0\t%dM\t*\t0\t0\t%s\t*\n", name, ac.an.RefName, p+1, n, gen.Genome(r, n)))
+			}
+		}
+	}
+	extraRecs("leading")
 	for qi := range sf.Queries {
 		q := &sf.Queries[qi]
 		use := map[int]byte{}
@@ -378,6 +401,7 @@ func recurSam(r *fw.Rng, ac annoCase) annoCase {
 				}
 			}
 			sb.WriteString(fmt.Sprintf("%s\t%d\t%s\t%d\t60\t%s\t*\t0\t0\t%s\t*\n", rc.Name, rc.Flag, ac.an.RefName, rc.Pos+1, rc.CigarString(), rc.Seq))
+			extraRecs(q.Name)
 		}
 	}
 	sf.Text = strings.ReplaceAll(sb.String(), "SN:"+sf.RefName+"\t", "SN:"+ac.an.RefName+"\t")
